@@ -30,19 +30,20 @@ theorem lookup_new (o o' : Nat) (n : Nat) (ids : List (Nat × Nat)) :
   simp only [List.lookup_cons]
   by_cases h : o' = o
   · simp [h]
-  · simp [h]
+  · have : (o' == o) = false := by simp [h]
+    simp [this, h]
 
 theorem idKey_mono (o : Nat) (s : KSt) (h : Inv s) : Inv (idKey o s).2 ∧ Le s (idKey o s).2 := by
-  unfold idKey
   cases hl : s.ids.lookup o with
-  | some i => exact ⟨h, Le.refl s⟩
+  | some i => simp only [idKey, hl]; exact ⟨h, Le.refl s⟩
   | none =>
+    simp only [idKey, hl]
     refine ⟨⟨?_, ?_⟩, ?_, ?_⟩
     · intro o' i hi
       simp only [lookup_new] at hi
       by_cases e : o' = o
-      · simp [e] at hi; omega
-      · simp [e] at hi; have := h.1 o' i hi; simp; omega
+      · simp [e] at hi; show i ≤ s.ctr + 1; omega
+      · simp [e] at hi; have := h.1 o' i hi; show i ≤ s.ctr + 1; omega
     · intro o1 o2 i h1 h2
       simp only [lookup_new] at h1 h2
       by_cases e1 : o1 = o <;> by_cases e2 : o2 = o
@@ -83,5 +84,336 @@ theorem keysFor_mono (reg : Nat → Str) (a : Bool) : ∀ (es : KVals) (s : KSt)
     have h2 := keysFor_mono reg a t _ h1.1
     exact ⟨h2.1, Le.trans h1.2 h2.2⟩
 end
+
+/-! ### hypotheses of the partial theorem -/
+
+/-- dynamic type strings contain no `$` and identify the type -/
+def RegOK (reg : Nat → Str) : Prop := (∀ i, 36 ∉ reg i) ∧ ∀ i j, reg i = reg j → i = j
+
+def notNaN : Flt → Bool
+  | .nan => false
+  | _ => true
+
+/-- the element of a `[n]float` array is not NaN -/
+def arrElemOK : Bool → KVal → Bool
+  | true, .float .nan => false
+  | _, _ => true
+
+mutual
+/-- no complex number with a NaN component and no float array with a NaN element, at any depth -/
+def good : KVal → Bool
+  | .complex re im => notNaN re && notNaN im
+  | .iface _ v => good v
+  | .tuple isArr es => goods isArr es
+  | _ => true
+def goods (isArr : Bool) : KVals → Bool
+  | .nil => true
+  | .cons h t => arrElemOK isArr h && good h && goods isArr t
+end
+
+/-- `a` and `b` are values of one static type -/
+def ST (shape : Nat → KType) (a b : KVal) : Prop := ∃ τ, wt shape τ a = true ∧ wt shape τ b = true
+
+def STs (shape : Nat → KType) : KVals → KVals → Prop
+  | .nil, .nil => True
+  | .cons a as, .cons b bs => ST shape a b ∧ STs shape as bs
+  | _, _ => False
+
+theorem wtAll_STs (shape : Nat → KType) (τ : KType) : ∀ (as bs : KVals), wtAll shape τ as = true → wtAll shape τ bs = true →
+    as.length = bs.length → STs shape as bs
+  | .nil, .nil, _, _, _ => trivial
+  | .nil, .cons _ _, _, _, h => by simp [KVals.length] at h
+  | .cons _ _, .nil, _, _, h => by simp [KVals.length] at h
+  | .cons a as, .cons b bs, h1, h2, h => by
+    simp only [wtAll, Bool.and_eq_true] at h1 h2
+    simp only [KVals.length, Nat.add_right_cancel_iff] at h
+    exact ⟨⟨τ, h1.1, h2.1⟩, wtAll_STs shape τ as bs h1.2 h2.2 h⟩
+
+theorem wtEach_STs (shape : Nat → KType) : ∀ (ts : KTypes) (as bs : KVals), wtEach shape ts as = true → wtEach shape ts bs = true →
+    STs shape as bs
+  | .nil, .nil, .nil, _, _ => trivial
+  | .nil, .nil, .cons _ _, _, h => by simp [wtEach] at h
+  | .nil, .cons _ _, _, h, _ => by simp [wtEach] at h
+  | .cons _ _, .nil, _, h, _ => by simp [wtEach] at h
+  | .cons _ _, .cons _ _, .nil, _, h => by simp [wtEach] at h
+  | .cons τ ts, .cons a as, .cons b bs, h1, h2 => by
+    simp only [wtEach, Bool.and_eq_true] at h1 h2
+    exact ⟨⟨τ, h1.1, h2.1⟩, wtEach_STs shape ts as bs h1.2 h2.2⟩
+
+theorem STs_length (shape : Nat → KType) : ∀ (as bs : KVals), STs shape as bs → as.length = bs.length
+  | .nil, .nil, _ => rfl
+  | .nil, .cons _ _, h => by simp [STs] at h
+  | .cons _ _, .nil, h => by simp [STs] at h
+  | .cons _ as, .cons _ bs, h => by
+    simp only [STs] at h
+    simp [KVals.length, STs_length shape as bs h.2]
+
+/-! ### the string form of a key and of the components of a composite key -/
+
+/-- `String(keyFor(v))` -/
+def kstr (reg : Nat → Str) (v : KVal) (s : KSt) : Str := (keyFor reg v s).1.toStr
+
+/-- unescaped component keys, with the state threaded exactly as `keysFor` does -/
+def rawKeys (reg : Nat → Str) : KVals → KSt → List Str
+  | .nil, _ => []
+  | .cons h t, s => kstr reg h s :: rawKeys reg t (keyFor reg h s).2
+
+theorem rawKeys_length (reg : Nat → Str) : ∀ (es : KVals) (s : KSt), (rawKeys reg es s).length = es.length
+  | .nil, _ => rfl
+  | .cons _ t, s => by simp [rawKeys, KVals.length, rawKeys_length reg t]
+
+theorem coerce_ok (isArr : Bool) (h : KVal) (x : Str) (hk : arrElemOK isArr h = true) : typedArrayCoerce isArr h x = x := by
+  unfold typedArrayCoerce
+  split
+  · simp [arrElemOK] at hk
+  · rfl
+
+theorem keysFor_raw (reg : Nat → Str) (isArr : Bool) : ∀ (es : KVals) (s : KSt), goods isArr es = true →
+    (keysFor reg isArr es s).1 = (rawKeys reg es s).map esc
+  | .nil, _, _ => rfl
+  | .cons h t, s, hg => by
+    simp only [goods, Bool.and_eq_true] at hg
+    simp only [keysFor, rawKeys, List.map, kstr]
+    rw [coerce_ok _ _ _ hg.1.1, keysFor_raw reg isArr t _ hg.2]
+
+theorem floatKey_notNaN (f : Flt) (s : KSt) (h : notNaN f = true) : floatKey f s = (numStr f, s) := by
+  cases f <;> simp [floatKey, notNaN] at h ⊢
+
+theorem notNaN_ne (f : Flt) (h : notNaN f = true) : f ≠ .nan := by
+  intro e; rw [e] at h; simp [notNaN] at h
+
+theorem mem_append_dollar (a x : Str) : 36 ∈ a ++ 36 :: x := by simp
+
+theorem sNaN_no_dollar : 36 ∉ sNaN := by decide
+theorem sNil_no_dollar : 36 ∉ sNil := by decide
+
+theorem toStr_str (s : Str) : (JKey.str s).toStr = s := rfl
+
+/-! ### the induction -/
+
+mutual
+theorem inj_val (reg : Nat → Str) (hreg : RegOK reg) (shape : Nat → KType) :
+    ∀ (a b : KVal) (s1 s2 : KSt), ST shape a b → good a = true → good b = true → Inv s1 → Inv s2 →
+      Le (keyFor reg a s1).2 s2 → (kstr reg a s1 = kstr reg b s2 ↔ goEq a b = true)
+  | .bool x, b, s1, s2, hst, ga, gb, i1, i2, hle => by
+    obtain ⟨τ, ha, hb⟩ := hst
+    cases τ <;> simp [wt] at ha
+    cases b <;> simp [wt] at hb
+    rename_i y
+    cases x <;> cases y <;> simp [kstr, keyFor, JKey.toStr, goEq, sTrue, sFalse]
+  | .int x, b, s1, s2, hst, ga, gb, i1, i2, hle => by
+    obtain ⟨τ, ha, hb⟩ := hst
+    cases τ <;> simp [wt] at ha
+    cases b <;> simp [wt] at hb
+    rename_i y
+    simp only [kstr, keyFor, JKey.toStr, goEq, beq_iff_eq]
+    exact ⟨decInt_injective x y, fun h => by rw [h]⟩
+  | .i64 h1 l1, b, s1, s2, hst, ga, gb, i1, i2, hle => by
+    obtain ⟨τ, ha, hb⟩ := hst
+    cases τ <;> simp [wt] at ha
+    cases b <;> simp [wt] at hb
+    rename_i h2 l2
+    simp only [kstr, keyFor, JKey.toStr, goEq, Bool.and_eq_true, beq_iff_eq]
+    constructor
+    · intro h
+      have := split_at_dollar _ _ _ _ (no_dollar_decInt h1) (no_dollar_decInt h2) h
+      exact ⟨decInt_injective _ _ this.1, decNat_injective _ _ this.2⟩
+    · rintro ⟨e1, e2⟩; rw [e1, e2]
+  | .float f, b, s1, s2, hst, ga, gb, i1, i2, hle => by
+    obtain ⟨τ, ha, hb⟩ := hst
+    cases τ <;> simp [wt] at ha
+    cases b <;> simp [wt] at hb
+    rename_i g
+    simp only [kstr, keyFor, JKey.toStr, goEq]
+    simp only [keyFor] at hle
+    by_cases nf : notNaN f = true <;> by_cases ng : notNaN g = true
+    · rw [floatKey_notNaN f s1 nf, floatKey_notNaN g s2 ng]
+      exact numStr_injective f g (notNaN_ne f nf) (notNaN_ne g ng) ha hb
+    · have eg : g = .nan := by cases g <;> simp [notNaN] at ng ⊢
+      subst eg
+      rw [floatKey_notNaN f s1 nf]
+      simp only [floatKey]
+      constructor
+      · intro h
+        exact absurd (h ▸ mem_append_dollar _ _) (numStr_chars f (notNaN_ne f nf))
+      · intro h; cases f <;> simp [fltEq] at h
+    · have ef : f = .nan := by cases f <;> simp [notNaN] at nf ⊢
+      subst ef
+      rw [floatKey_notNaN g s2 ng]
+      simp only [floatKey]
+      constructor
+      · intro h
+        exact absurd (h ▸ mem_append_dollar _ _) (numStr_chars g (notNaN_ne g ng))
+      · intro h; simp [fltEq] at h
+    · have ef : f = .nan := by cases f <;> simp [notNaN] at nf ⊢
+      have eg : g = .nan := by cases g <;> simp [notNaN] at ng ⊢
+      subst ef; subst eg
+      simp only [floatKey] at hle ⊢
+      constructor
+      · intro h
+        have := decNat_injective _ _ (List.cons.inj (List.append_cancel_left h)).2
+        have := hle.1
+        simp at this
+        omega
+      · intro h; simp [fltEq] at h
+  | .complex r1 i1, b, s1, s2, hst, ga, gb, iv1, iv2, hle => by
+    obtain ⟨τ, ha, hb⟩ := hst
+    cases τ <;> simp [wt] at ha
+    cases b <;> simp [wt] at hb
+    rename_i r2 i2
+    simp only [good, Bool.and_eq_true] at ga gb
+    simp only [kstr, keyFor, JKey.toStr, goEq, Bool.and_eq_true]
+    have n1 := notNaN_ne _ ga.1
+    have n2 := notNaN_ne _ ga.2
+    have n3 := notNaN_ne _ gb.1
+    have n4 := notNaN_ne _ gb.2
+    constructor
+    · intro h
+      have := split_at_dollar _ _ _ _ (numStr_chars r1 n1) (numStr_chars r2 n3) h
+      exact ⟨(numStr_injective r1 r2 n1 n3 ha.1 hb.1).mp this.1, (numStr_injective i1 i2 n2 n4 ha.2 hb.2).mp this.2⟩
+    · rintro ⟨e1, e2⟩
+      rw [(numStr_injective r1 r2 n1 n3 ha.1 hb.1).mpr e1, (numStr_injective i1 i2 n2 n4 ha.2 hb.2).mpr e2]
+  | .str x, b, s1, s2, hst, ga, gb, i1, i2, hle => by
+    obtain ⟨τ, ha, hb⟩ := hst
+    cases τ <;> simp [wt] at ha
+    cases b <;> simp [wt] at hb
+    rename_i y
+    simp [kstr, keyFor, JKey.toStr, goEq]
+  | .ref o1, b, s1, s2, hst, ga, gb, i1, i2, hle => by
+    obtain ⟨τ, ha, hb⟩ := hst
+    cases τ <;> simp [wt] at ha
+    cases b <;> simp [wt] at hb
+    rename_i o2
+    simp only [kstr, keyFor, JKey.toStr, goEq, beq_iff_eq]
+    simp only [keyFor] at hle
+    -- after the first evaluation `o1` has an id, which the later state keeps
+    have key1 : ∃ n, (idKey o1 s1).1 = decNat n ∧ (idKey o1 s1).2.ids.lookup o1 = some n := by
+      cases hl : s1.ids.lookup o1 with
+      | some n => exact ⟨n, by simp [idKey, hl], by simp [idKey, hl]⟩
+      | none => exact ⟨s1.ctr + 1, by simp [idKey, hl], by simp [idKey, hl, lookup_new]⟩
+    obtain ⟨n, e1, l1⟩ := key1
+    have l2 := hle.2 o1 n l1
+    rw [e1]
+    cases hl : s2.ids.lookup o2 with
+    | some m =>
+      simp only [idKey, hl]
+      constructor
+      · intro h
+        have := decNat_injective _ _ h
+        subst this
+        exact i2.2 o1 o2 n l2 hl
+      · intro h; subst h; rw [l2] at hl; cases hl; rfl
+    | none =>
+      simp only [idKey, hl]
+      constructor
+      · intro h
+        have := decNat_injective _ _ h
+        have := i2.1 o1 n l2
+        omega
+      · intro h; subst h; rw [l2] at hl; cases hl
+  | .ifaceNil, b, s1, s2, hst, ga, gb, i1, i2, hle => by
+    obtain ⟨τ, ha, hb⟩ := hst
+    cases τ <;> simp [wt] at ha
+    cases b <;> simp [wt] at hb
+    · simp [kstr, keyFor, JKey.toStr, goEq]
+    · simp only [kstr, keyFor, JKey.toStr, goEq]
+      constructor
+      · intro h; exact absurd (h ▸ mem_append_dollar _ _) sNil_no_dollar
+      · intro h; cases h
+  | .iface t1 v1, b, s1, s2, hst, ga, gb, i1, i2, hle => by
+    obtain ⟨τ, ha, hb⟩ := hst
+    cases τ <;> simp [wt] at ha
+    cases b <;> simp [wt] at hb
+    · simp only [kstr, keyFor, JKey.toStr, goEq]
+      constructor
+      · intro h; exact absurd (h.symm ▸ mem_append_dollar _ _) sNil_no_dollar
+      · intro h; cases h
+    · rename_i t2 v2
+      simp only [good] at ga gb
+      simp only [keyFor] at hle
+      simp only [kstr, keyFor, toStr_str, goEq, Bool.and_eq_true, beq_iff_eq]
+      constructor
+      · intro h
+        have sp := split_at_dollar _ _ _ _ (hreg.1 t1) (hreg.1 t2) h
+        have et := hreg.2 _ _ sp.1
+        subst et
+        exact ⟨rfl, (inj_val reg hreg shape v1 v2 s1 s2 ⟨_, ha, hb⟩ ga gb i1 i2 hle).mp sp.2⟩
+      · rintro ⟨et, hv⟩
+        subst et
+        have := (inj_val reg hreg shape v1 v2 s1 s2 ⟨_, ha, hb⟩ ga gb i1 i2 hle).mpr hv
+        simp only [kstr] at this
+        rw [this]
+  | .tuple ia e1, b, s1, s2, hst, ga, gb, i1, i2, hle => by
+    obtain ⟨τ, ha, hb⟩ := hst
+    have hs : ∃ ib e2, b = .tuple ib e2 ∧ STs shape e1 e2 ∧ ib = ia := by
+      cases τ <;> cases ia <;> simp [wt] at ha
+      · cases b <;> try simp [wt] at hb
+        rename_i len elem ib e2
+        cases ib <;> simp [wt] at hb
+        exact ⟨_, _, rfl, wtAll_STs shape _ e1 e2 ha.1 hb.1 (by rw [ha.2, hb.2]), rfl⟩
+      · cases b <;> try simp [wt] at hb
+        rename_i fs ib e2
+        cases ib <;> simp [wt] at hb
+        exact ⟨_, _, rfl, wtEach_STs shape _ e1 e2 ha hb, rfl⟩
+    obtain ⟨ib, e2, rfl, hsts, rfl⟩ := hs
+    simp only [good] at ga gb
+    simp only [keyFor] at hle
+    simp only [kstr, keyFor, JKey.toStr, goEq]
+    rw [keysFor_raw reg ib e1 s1 ga, keysFor_raw reg ib e2 s2 gb]
+    have ih := inj_vals reg hreg shape e1 e2 ib s1 s2 hsts ga gb i1 i2 hle
+    constructor
+    · intro h
+      apply ih.mp
+      apply join_esc_injective _ _ _ h
+      rw [rawKeys_length, rawKeys_length, STs_length shape e1 e2 hsts]
+    · intro h; rw [ih.mpr h]
+theorem inj_vals (reg : Nat → Str) (hreg : RegOK reg) (shape : Nat → KType) :
+    ∀ (as bs : KVals) (isArr : Bool) (s1 s2 : KSt), STs shape as bs → goods isArr as = true → goods isArr bs = true →
+      Inv s1 → Inv s2 → Le (keysFor reg isArr as s1).2 s2 → (rawKeys reg as s1 = rawKeys reg bs s2 ↔ goEqs as bs = true)
+  | .nil, .nil, _, _, _, _, _, _, _, _, _ => by simp [rawKeys, goEqs]
+  | .nil, .cons _ _, _, _, _, h, _, _, _, _, _ => by simp [STs] at h
+  | .cons _ _, .nil, _, _, _, h, _, _, _, _, _ => by simp [STs] at h
+  | .cons a as, .cons b bs, isArr, s1, s2, hst, ga, gb, i1, i2, hle => by
+    simp only [STs] at hst
+    simp only [goods, Bool.and_eq_true] at ga gb
+    simp only [keysFor] at hle
+    have m1 := keyFor_mono reg a s1 i1
+    have m1' := keysFor_mono reg isArr as _ m1.1
+    have m2 := keyFor_mono reg b s2 i2
+    have hhead := inj_val reg hreg shape a b s1 s2 hst.1 ga.1.2 gb.1.2 i1 i2 (Le.trans m1'.2 hle)
+    have htail := inj_vals reg hreg shape as bs isArr _ _ hst.2 ga.2 gb.2 m1.1 m2.1 (Le.trans hle m2.2)
+    simp only [rawKeys, goEqs, List.cons.injEq, Bool.and_eq_true]
+    rw [hhead, htail]
+end
+
+theorem key_sort (reg : Nat → Str) (shape : Nat → KType) (τ : KType) (v : KVal) (s : KSt) (h : wt shape τ v = true) :
+    (τ = .bool ∧ ∃ x, v = .bool x) ∨ (τ = .int ∧ ∃ n, v = .int n) ∨
+    (τ ≠ .bool ∧ τ ≠ .int ∧ ∃ x, (keyFor reg v s).1 = .str x) := by
+  cases τ <;> cases v <;> (try simp [wt] at h) <;> (try simp [keyFor])
+
+theorem jkey_eq_iff_kstr (reg : Nat → Str) (shape : Nat → KType) (a b : KVal) (s1 s2 : KSt) (hst : ST shape a b) :
+    (keyFor reg a s1).1 = (keyFor reg b s2).1 ↔ kstr reg a s1 = kstr reg b s2 := by
+  obtain ⟨τ, ha, hb⟩ := hst
+  rcases key_sort reg shape τ a s1 ha with ⟨e, x, rfl⟩ | ⟨e, x, rfl⟩ | ⟨n1, n2, x, ex⟩
+  · rcases key_sort reg shape τ b s2 hb with ⟨_, y, rfl⟩ | ⟨e', _⟩ | ⟨n1, _⟩
+    · cases x <;> cases y <;> simp [kstr, keyFor, JKey.toStr, sTrue, sFalse]
+    · rw [e] at e'; cases e'
+    · exact absurd e n1
+  · rcases key_sort reg shape τ b s2 hb with ⟨e', _⟩ | ⟨_, y, rfl⟩ | ⟨_, n2, _⟩
+    · rw [e] at e'; cases e'
+    · simp only [kstr, keyFor, JKey.toStr, JKey.num.injEq]
+      exact ⟨fun h => by rw [h], decInt_injective x y⟩
+    · exact absurd e n2
+  · rcases key_sort reg shape τ b s2 hb with ⟨e', _⟩ | ⟨e', _⟩ | ⟨_, _, y, ey⟩
+    · exact absurd e' n1
+    · exact absurd e' n2
+    · simp only [kstr, ex, ey, JKey.toStr, JKey.str.injEq]
+
+theorem key_inj (reg : Nat → Str) (hreg : RegOK reg) (shape : Nat → KType) (τ : KType) (a b : KVal)
+    (s1 s2 : KSt) (ha : wt shape τ a = true) (hb : wt shape τ b = true) (ga : good a = true) (gb : good b = true)
+    (i1 : Inv s1) (i2 : Inv s2) (hle : Le (keyFor reg a s1).2 s2) :
+    (keyFor reg a s1).1 = (keyFor reg b s2).1 ↔ goEq a b = true := by
+  rw [jkey_eq_iff_kstr reg shape a b s1 s2 ⟨τ, ha, hb⟩]
+  exact inj_val reg hreg shape a b s1 s2 ⟨τ, ha, hb⟩ ga gb i1 i2 hle
 
 end GV.Proofs.MapKeyInj
